@@ -17,6 +17,33 @@ func checkC14(r *Run) {
 	r2 := r.Rule("R-C14-2", "dispatch: ascending range over handlers, no early exit; handler invoked exactly when the same element's filter.Match(message.Topic) is true")
 	r3 := r.Rule("R-C14-3", "topicFilter values are constructed only by newTopicFilter")
 	hF := c.structField("ServeMux", "handlers")
+	// the registrations kept as two parallel lists (filters[i] belongs to handlers[i]) instead of one list of pairs
+	var fSoA *types.Var
+	if mux := c.NamedType("ServeMux"); mux != nil {
+		if st, ok := mux.Underlying().(*types.Struct); ok {
+			var hs, fs []*types.Var
+			pairs := 0
+			for i := 0; i < st.NumFields(); i++ {
+				sl, ok := st.Field(i).Type().Underlying().(*types.Slice)
+				if !ok {
+					continue
+				}
+				switch typeName(sl.Elem()) {
+				case "Handler":
+					hs = append(hs, st.Field(i))
+				case "topicFilter":
+					fs = append(fs, st.Field(i))
+				default:
+					if _, isStruct := sl.Elem().Underlying().(*types.Struct); isStruct {
+						pairs++
+					}
+				}
+			}
+			if pairs == 0 && len(hs) == 1 && len(fs) == 1 {
+				hF, fSoA = hs[0], fs[0]
+			}
+		}
+	}
 	ntf := c.Func("newTopicFilter")
 	handle := c.Method("ServeMux", "Handle")
 	serve := c.Method("ServeMux", "Serve")
@@ -45,7 +72,9 @@ func checkC14(r *Run) {
 			}
 		}
 		sts := storesToField(handle, hF)
-		if len(sts) != 1 {
+		if fSoA != nil {
+			c.checkC14ParallelAppend(r1, handle, hF, fSoA, fres, ferr)
+		} else if len(sts) != 1 {
 			r1.Bad("(*ServeMux).Handle/append", handle.Pos(), "Handle stores the handler list %d times (want one tail append)", len(sts))
 		} else {
 			st := sts[0]
@@ -112,6 +141,11 @@ func checkC14(r *Run) {
 		for _, st := range storesToField(f, hF) {
 			r1.Bad(FuncName(f)+"/handlers", st.Pos(), "the handler list is written outside Handle")
 		}
+		if fSoA != nil {
+			for _, st := range storesToField(f, fSoA) {
+				r1.Bad(FuncName(f)+"/filters", st.Pos(), "the filter list is written outside Handle: it no longer runs parallel to the handler list")
+			}
+		}
 	}
 	// ---- R-C14-2
 	matchM := c.Method("topicFilter", "Match")
@@ -135,6 +169,25 @@ func checkC14(r *Run) {
 	// element: handler loaded from an element copy / element address of handlers[i]
 	elemIndex := func(v ssa.Value, field string) (ssa.Value, bool) {
 		// v = load of &X.field where X is local copy of handlers[i] or &handlers[i]
+		if fSoA != nil {
+			// parallel lists: v = load of &L[i], L the list of that role
+			ld, ok := c.Resolve(v).(*ssa.UnOp)
+			if !ok || ld.Op != token.MUL {
+				return nil, false
+			}
+			ia, ok := ld.X.(*ssa.IndexAddr)
+			if !ok {
+				return nil, false
+			}
+			want := hF
+			if field == "filter" {
+				want = fSoA
+			}
+			if _, isL := isLoadOfField(c.Resolve(ia.X), want); !isL {
+				return nil, false
+			}
+			return ia.Index, true
+		}
 		ld, ok := v.(*ssa.UnOp)
 		if !ok || ld.Op != token.MUL {
 			return nil, false
@@ -431,5 +484,69 @@ func (c *Ctx) checkC14ViaHelper(r2 *RuleRep, serve *ssa.Function, hF *types.Var,
 		r2.OK(FuncName(g)+"/guard", inv.Pos(), "element's handler is invoked exactly when the element's filter.Match(message.Topic) is true")
 	} else {
 		r2.Bad(FuncName(g)+"/guard", inv.Pos(), "the handler invocation is not guarded exactly by the same element's filter.Match(message.Topic)")
+	}
+}
+
+// checkC14ParallelAppend: the registration with two parallel lists. Handle appends the validated filter to the one and
+// the given handler to the other, once each, both on the nil-error edge, and no path leaves Handle between the two
+// appends; as nothing else writes either list (checked by the caller), the lists have the same length at all times and
+// equal indices denote one registration.
+func (c *Ctx) checkC14ParallelAppend(r1 *RuleRep, handle *ssa.Function, hF, fF *types.Var, fres, ferr ssa.Value) {
+	key := "(*ServeMux).Handle/append"
+	hs, fs := storesToField(handle, hF), storesToField(handle, fF)
+	if len(hs) != 1 || len(fs) != 1 {
+		r1.Bad(key, handle.Pos(), "Handle stores the handler list %d times and the filter list %d times (want one tail append each)", len(hs), len(fs))
+		return
+	}
+	tail := func(st *ssa.Store, fld *types.Var, want ssa.Value) bool {
+		base, elems, ok := c.appendChain(st.Val)
+		if !ok || len(elems) != 1 || elems[0].Single == nil {
+			return false
+		}
+		if _, isL := isLoadOfField(c.Resolve(base), fld); !isL {
+			return false
+		}
+		return c.Resolve(elems[0].Single) == want
+	}
+	if !tail(hs[0], hF, ssa.Value(handle.Params[2])) || !tail(fs[0], fF, fres) {
+		r1.Bad(key, hs[0].Pos(), "the registration is not a tail append of the validated filter and the given handler to their lists: registration order or the filter/handler pairing is not preserved")
+		return
+	}
+	for _, st := range []*ssa.Store{hs[0], fs[0]} {
+		okEdge := false
+		if ferr != nil {
+			for _, e := range nilEdges(handle, ferr) {
+				if DominatedByEdge(handle, st, e.B, e.K, PathQ{}) {
+					okEdge = true
+				}
+			}
+		}
+		if !okEdge {
+			r1.Bad(key, st.Pos(), "a handler is registered although its filter was rejected")
+			return
+		}
+	}
+	first, second := fs[0], hs[0]
+	if !Dominated(handle, second, func(x ssa.Instruction) bool { return x == ssa.Instruction(first) }, PathQ{}) {
+		first, second = second, first
+	}
+	if !Dominated(handle, second, func(x ssa.Instruction) bool { return x == ssa.Instruction(first) }, PathQ{}) {
+		r1.Bad(key, second.Pos(), "the two lists are not appended to together: one can grow without the other")
+		return
+	}
+	if _, leaves := CanReach(handle, first, func(x ssa.Instruction) bool { return isExit(x) || x == ssa.Instruction(first) }, PathQ{BlockInstr: func(x ssa.Instruction) bool { return x == ssa.Instruction(second) }}); leaves {
+		r1.Bad(key, first.Pos(), "a path leaves Handle after the first of the two appends: the lists get out of step and later registrations pair a filter with another handler")
+		return
+	}
+	r1.OK(key, first.Pos(), "tail appends of newTopicFilter(filter)'s result and of the handler to the two parallel lists, together, on the nil-error edge")
+	for _, ret := range returnsOf(handle) {
+		ev := c.Resolve(c.errResult(ret))
+		if isNilConst(ev) {
+			if !Dominated(handle, ret, func(x ssa.Instruction) bool { return x == ssa.Instruction(second) }, PathQ{}) {
+				r1.Bad("(*ServeMux).Handle/return", ret.Pos(), "Handle can return nil without having registered the handler")
+			}
+		} else if ev != ferr {
+			r1.Bad("(*ServeMux).Handle/return", ret.Pos(), "Handle does not return newTopicFilter's error")
+		}
 	}
 }
